@@ -2,6 +2,7 @@
 From Base Require Import Prelude Sx Json JsonText Base64.
 From C02 Require Import Model.
 From C05 Require Import Proofs.
+From C01 Require Roundtrip.
 
 Lemma k_sig_neq_unsigned : k_signatures <> k_unsigned.
 Proof. discriminate. Qed.
@@ -298,5 +299,42 @@ Proof.
         apply In_insert in Hin as [[-> _]|Hin]; [congruence|]. apply (in_map fst) in Hin. exact Hin. }
       specialize (Hothers e' Hin Hne). unfold entity_ok in Hothers. exact Hothers. }
   now rewrite Hall.
+Qed.
+
+(** * Tampering is detected (ideal signatures). *)
+Variable Signed : str -> str -> str -> Prop.   (* (public key, message, signature) triples honestly produced *)
+Hypothesis ideal : forall p m s, verify p m s = true -> Signed p m s.
+
+Theorem verified_content_was_signed pkm o :
+  verify_json pkm o = Ok tt ->
+  forall sigmap e, lookup k_signatures o = Some (JObj sigmap) -> In e (keys sigmap) ->
+  exists p raw, Signed p (signing_bytes o) raw.
+Proof.
+  intros Hv sigmap e Hl He. destruct (verify_sound pkm o Hv) as (sm & Hl' & Hall).
+  rewrite Hl in Hl'. injection Hl' as <-.
+  destruct (Hall e He) as (set & pks & _ & _ & (kid & s0 & raw & p & _ & _ & _ & _ & Hver) & _).
+  exists p, raw. apply ideal, Hver.
+Qed.
+
+(** If the only message ever signed is the signing bytes of [o], an object whose signed
+    content differs from [o]'s and that names at least one entity cannot verify. *)
+Theorem tamper_detected pkm o o' sigmap e :
+  wf_obj o -> wf_obj o' ->
+  C01.Roundtrip.ints_ok (JObj o) = true -> C01.Roundtrip.ints_ok (JObj o') = true ->
+  C01.Roundtrip.jdepth (JObj o) < 128 -> C01.Roundtrip.jdepth (JObj o') < 128 ->
+  (forall p m s, Signed p m s -> m = signing_bytes o) ->
+  strip o' <> strip o ->
+  lookup k_signatures o' = Some (JObj sigmap) -> In e (keys sigmap) ->
+  verify_json pkm o' = Err 0.
+Proof.
+  intros W W' I I' D D' Honly Hne Hl He.
+  destruct (verify_json pkm o') as [[]| |] eqn:Ev.
+  - exfalso. destruct (verified_content_was_signed pkm o' Ev sigmap e Hl He) as (p & raw & Hs).
+    apply Honly in Hs.
+    apply (covered_change_changes_preimage [k_signatures; k_unsigned] o' o W' W I' I D' D); [exact Hne|exact Hs].
+  - rewrite verify_json_spec in Ev. destruct (lookup k_signatures o') as [[| | | | |m]|]; try (injection Ev as <-; reflexivity).
+    destruct (forallb _ _); [discriminate|injection Ev as <-; reflexivity].
+  - rewrite verify_json_spec in Ev. destruct (lookup k_signatures o') as [[| | | | |m]|]; try discriminate.
+    destruct (forallb _ _); discriminate.
 Qed.
 End Sig.
